@@ -32,7 +32,7 @@ pub fn run(ctx: &Ctx) {
         Ok(d) if std::path::Path::new(&format!("{d}/grex.so")).exists() => d,
         _ => return run.machinery_error("VERIF_PYMOD_DIR not set or grex.so missing (the check driver builds the extension from /repo)".into()),
     };
-    *run.rule.lock().unwrap() = "real extension module built from /repo (python feature) imported by CPython; subsets (size<=2) of the hex-width alphabet (U+007F..U+10FFFF: 2,3,4,5,6 hex digits, plus U+1F4A9, 'a', space, NBSP, backslash) ^<=2 x {{}, e, e+u} x deviation-bounded lattice of the other flags; oracle: extension result == independent token-level rewrite of the in-process Rust library result, re.compile succeeds, and (no class flag, no u) re.fullmatch on every test case; ValueError cases for empty lists and non-positive thresholds with the library's messages; non-trivial = case contains a non-ASCII scalar; distinct by hash".into();
+    *run.rule.lock().unwrap() = "real extension module built from /repo (python feature) imported by CPython; subsets (size<=2) of the hex-width alphabet (U+007F..U+10FFFF: 2,3,4,5,6 hex digits, plus U+1F4A9, 'a', space, NBSP, backslash) ^<=2 x {{}, e, e+u} x deviation-bounded lattice of the other flags; oracle: extension result == independent token-level rewrite of the in-process Rust library result, re.compile succeeds, and (no class flag, no u) re.fullmatch on every test case; ValueError cases for empty lists and non-positive thresholds with the library's messages; plus escape look-alikes: every string with a backslash over {\\, u, U, {, }, 2, e, x, N}^<=4 (5 in thorough) and pairs over {\\, u, {, 2}^<=4 containing \\u, under {}, r, r+x, r+g x {{}, e, e+u}; non-trivial = case contains a non-ASCII scalar or a backslash; distinct by hash".into();
     let alpha: Vec<&str> = A_ESC.iter().copied().chain(["a", " ", "\u{a0}", "\\"]).collect();
     let u = Universe::new("U_adv(A_esc+a+sp+nbsp)", &alpha, 2, 2, false);
     let free = D | ND | S | NS | W | NW | R | I | G | X | NA | NE;
@@ -49,6 +49,29 @@ pub fn run(ctx: &Ctx) {
             for esc in [0, E, E | U] {
                 cases.push((t.clone(), Cfg::new(o.bits | esc)));
             }
+        }
+    }
+    // text that merely LOOKS like an escape: literal backslashes, `u`, `U`, `x`, `N`, braces and hex digits in the
+    // test cases themselves, with and without repetition conversion (`\\uu` becomes `\\\\u{2}`: an escaped backslash
+    // followed by a quantified `u`, which the rewrite to Python syntax must leave alone)
+    let look = Universe::new("U_lookalike{\\,u,U,{,},2,e,x,N}", &["\\", "u", "U", "{", "}", "2", "e", "x", "N"], if thorough { 5 } else { 4 }, 1, false);
+    for i in 0..look.len() {
+        let t = look.set(i);
+        if !t[0].contains('\\') {
+            continue;
+        }
+        for base in [0, R, R | X, R | G] {
+            for esc in [0, E, E | U] {
+                cases.push((t.clone(), Cfg::new(base | esc)));
+            }
+        }
+    }
+    let pairs = Universe::new("U_lookalike pairs{\\,u,{,2}", &["\\", "u", "{", "2"], 4, 2, false);
+    for i in 0..pairs.len() {
+        let t = pairs.set(i);
+        if t.len() == 2 && t.iter().any(|x| x.contains("\\u")) {
+            cases.push((t.clone(), Cfg::new(R)));
+            cases.push((t, Cfg::new(R | E)));
         }
     }
     // call histories: every sequence of setter calls up to the depth bound over the Python setter alphabet,
@@ -191,7 +214,7 @@ pub fn run(ctx: &Ctx) {
     run.space(json!({"engine": "call histories on the real extension: every sequence of setter calls (16-symbol alphabet incl. escape(False/True), thresholds, rejected threshold calls, build) up to the depth bound, each in three calling styles (statements; chained through the returned objects with build() on the original; chained with build() on the last returned object); expected = real Rust builder driven by the same sequence", "depth": depth, "histories": histories.len()}));
     for (id, (t, c)) in cases.iter().enumerate() {
         run.eval();
-        if t.iter().any(|s| !s.is_ascii()) {
+        if t.iter().any(|s| !s.is_ascii() || s.contains('\\')) {
             run.mark_nontrivial(hash_case(t, c));
         }
         let r = &results[id];
